@@ -712,4 +712,161 @@ theorem lexGround_post (b : Pos) (l : Lexer) (hF : F b l) : Post b l (lexGround 
               simp [isUnqDelim] at *
               omega
 
+/-! ### the token queue, `NextToken`, the parser's token source -/
+
+/-- `q`, then the positions `ts`, strictly increasing, all at or before `b` -/
+def Chain (q : Pos) (ts : List Pos) (b : Pos) : Prop := (q :: ts).Pairwise plt ∧ ∀ x ∈ q :: ts, ple x b
+
+theorem chain_snoc {q : Pos} {ts : List Pos} {b t : Pos} (h : Chain q ts b) (ht : plt b t) :
+    Chain q (ts ++ [t]) t := by
+  obtain ⟨h1, h2⟩ := h
+  refine ⟨?_, ?_⟩
+  · rw [← List.cons_append, List.pairwise_append]
+    refine ⟨h1, List.pairwise_singleton _ _, ?_⟩
+    intro a ha c hc
+    simp only [List.mem_singleton] at hc
+    rw [hc]
+    exact plt_of_ple_of_plt (h2 a ha) ht
+  · intro x hx
+    rw [← List.cons_append, List.mem_append] at hx
+    rcases hx with hx | hx
+    · exact Or.inr (plt_of_ple_of_plt (h2 x hx) ht)
+    · simp only [List.mem_singleton] at hx; rw [hx]; exact ple_refl _
+
+theorem chain_pop {q t : Pos} {ts : List Pos} {b : Pos} (h : Chain q (t :: ts) b) : plt q t ∧ Chain t ts b := by
+  obtain ⟨h1, h2⟩ := h
+  rw [List.pairwise_cons] at h1
+  exact ⟨h1.1 t (by simp), h1.2, fun x hx => h2 x (List.mem_cons_of_mem _ hx)⟩
+
+/-- **Invariant of the lexer as token source**: every token (error tokens aside) still queued or
+still to be read stands strictly after `q`, in strictly increasing order. -/
+def LInv (q : Pos) (l : Lexer) : Prop := ∃ b, Chain q ((noErr l.items).map tpos) b ∧ St b l
+
+theorem LInv.post {q b : Pos} {l l' : Lexer} (hc : Chain q ((noErr l.items).map tpos) b) (hp : Post b l l') :
+    LInv q l' := by
+  rcases hp with ⟨hi, hst⟩ | ⟨t, hi, hbt, hst⟩
+  · exact ⟨b, by rw [hi]; exact hc, hst⟩
+  · refine ⟨tpos t, ?_, hst⟩
+    rw [hi, List.map_append]
+    exact chain_snoc hc hbt
+
+theorem LInv.congr {q : Pos} {l l' : Lexer} (h : LInv q l) (k : Keep l l') (hr : l'.rest = l.rest)
+    (hi : l'.items = l.items) : LInv q l' := by
+  obtain ⟨b, hc, hst⟩ := h
+  exact ⟨b, by rw [hi]; exact hc, hst.congr k hr⟩
+
+theorem LInv.setFault {q : Pos} {l : Lexer} (h : LInv q l) (f : Fault) : LInv q (setFault f l) := by
+  refine h.congr ?_ ?_ ?_
+  · unfold Goyang.Model.Lex.setFault Keep; split <;> exact ⟨rfl, rfl, rfl, rfl, rfl⟩
+  · unfold Goyang.Model.Lex.setFault; split <;> rfl
+  · unfold Goyang.Model.Lex.setFault; split <;> rfl
+
+/-- what a fetched token tells -/
+def Out (q : Pos) (r : Option Token × Lexer) : Prop :=
+  match r.1 with
+  | none => LInv q r.2
+  | some t => (t.code = Code.error → LInv q r.2) ∧ (t.code ≠ Code.error → plt q (tpos t) ∧ LInv (tpos t) r.2)
+
+theorem nextTokenLoop_inv (q : Pos) : ∀ (f : Nat) (l : Lexer), LInv q l → Out q (nextTokenLoop f l) := by
+  intro f
+  induction f with
+  | zero =>
+    intro l h
+    unfold nextTokenLoop Out
+    exact h.setFault _
+  | succ f ih =>
+    intro l h
+    unfold nextTokenLoop
+    split
+    · rename_i t ts hits
+      obtain ⟨b, hc, hst⟩ := h
+      have hst' : St b { l with items := ts } := hst.congr ⟨rfl, rfl, rfl, rfl, rfl⟩ rfl
+      unfold Out
+      simp only
+      rw [hits] at hc
+      by_cases he : t.code = Code.error
+      · have : noErr (t :: ts) = noErr ts := by simp [noErr, he]
+        rw [this] at hc
+        exact ⟨fun _ => ⟨b, hc, hst'⟩, fun hn => absurd he hn⟩
+      · have : noErr (t :: ts) = t :: noErr ts := by simp [noErr, he]
+        rw [this, List.map_cons] at hc
+        obtain ⟨h1, h2⟩ := chain_pop hc
+        exact ⟨fun hn => absurd hn he, fun _ => ⟨h1, ⟨b, h2, hst'⟩⟩⟩
+    · obtain ⟨b, hc, hst⟩ := h
+      split
+      · rename_i hs
+        unfold Out
+        exact ⟨b, hc, hst⟩
+      · rename_i hs
+        have hF : F b l := by unfold St at hst; rw [hs] at hst; exact hst
+        exact ih _ (LInv.post hc (lexGround_post b l hF))
+      · rename_i hs
+        have hQ : QI b l := by unfold St at hst; rw [hs] at hst; exact ⟨hs, hst⟩
+        exact ih _ (LInv.post hc (lexQString_post b l hQ))
+      · rename_i hs
+        have hU := hst
+        unfold St at hU; rw [hs] at hU
+        exact ih _ (LInv.post hc (unquotedLoop_post b _ l (Nat.le_refl _) hU.1 hU.2.1 hU.2.2))
+
+/-- what a fetched non-error token tells -/
+def Out' (q : Pos) (r : Option Token × Lexer) : Prop :=
+  match r.1 with
+  | none => LInv q r.2
+  | some t => plt q (tpos t) ∧ LInv (tpos t) r.2
+
+theorem skipErrors_inv (q : Pos) : ∀ (f : Nat) (l : Lexer), LInv q l → Out' q (skipErrors f l) := by
+  intro f
+  induction f with
+  | zero =>
+    intro l h
+    unfold skipErrors Out'
+    exact h.setFault _
+  | succ f ih =>
+    intro l h
+    unfold skipErrors
+    have hn := nextTokenLoop_inv q (l.rest.length + 3) l h
+    unfold nextToken
+    simp only
+    unfold Out at hn
+    split
+    · rename_i hr
+      rw [hr] at hn
+      unfold Out'
+      exact hn
+    · rename_i t hr
+      rw [hr] at hn
+      simp only at hn
+      split
+      · rename_i he
+        exact ih _ (hn.1 he)
+      · rename_i he
+        unfold Out'
+        exact hn.2 he
+
+/-- **The lexer model hands the parser tokens at strictly increasing (line, col), for every byte
+string.** -/
+theorem lexSource_mono : SrcMono lexSource LInv where
+  pull_some b s q t s' hi hp := by
+    have h := skipErrors_inv q (s.items.length + s.rest.length + (s.pos - s.start) + 2) { s with inPattern := b }
+      (hi.congr ⟨rfl, rfl, rfl, rfl, rfl⟩ rfl rfl)
+    have hp' : skipErrors (s.items.length + s.rest.length + (s.pos - s.start) + 2) { s with inPattern := b } = (some t, s') := hp
+    rw [hp'] at h
+    exact h
+  pull_none b s q s' hi hp := by
+    have h := skipErrors_inv q (s.items.length + s.rest.length + (s.pos - s.start) + 2) { s with inPattern := b }
+      (hi.congr ⟨rfl, rfl, rfl, rfl, rfl⟩ rfl rfl)
+    have hp' : skipErrors (s.items.length + s.rest.length + (s.pos - s.start) + 2) { s with inPattern := b } = (none, s') := hp
+    rw [hp'] at h
+    exact h
+  addErr e s q hi := hi.congr ⟨rfl, rfl, rfl, rfl, rfl⟩ rfl rfl
+
+theorem newLexer_inv (text file : List UInt8) : LInv (0, 0) (newLexer text file) := by
+  refine ⟨(0, 0), ⟨List.pairwise_singleton _ _, fun x hx => ?_⟩, St.ground rfl (Gt.F ⟨⟨?_, ?_⟩, ?_⟩)⟩
+  · have : x = (0, 0) := by simpa [newLexer, noErr] using hx
+    rw [this]; exact ple_refl _
+  · show (0 : Int) ≤ 1; decide
+  · show (0 : Int) ≤ 0; decide
+  · show plt (0, 0) (1, 0 + 1)
+    unfold plt; simp
+
 end Goyang.Lemmas.AugPosLex
